@@ -231,6 +231,29 @@ pub fn run(ctx: &Ctx) {
         });
         ctx.run.space(json!({"universe": "all curated inputs", "sets": inputs.len(), "settings": "Lambda<=3 incl. u and c; thresholds (1,1) and, with r, (2,2)", "settings_count": k3.len()}));
     }
+    {
+        // every pair of scalar kinds next to each other, and runs of consecutive code points (class ranges)
+        let k1 = lattice_le(0, ALL_BITS, 1);
+        let k2 = lattice_le(0, ALL_BITS, 2);
+        let plan: Vec<(crate::space::Universe, Vec<Cfg>, &str)> = if thorough {
+            vec![
+                (crate::space::u_kind_pairs(2, 2, false), k2.clone(), "Lambda<=2 incl. u and c"),
+                (crate::space::u_kind_pairs(3, 1, false), k2.clone(), "Lambda<=2 incl. u and c"),
+                (crate::space::u_runs(), lattice_le(0, ALL_BITS, 3), "Lambda<=3 incl. u and c"),
+            ]
+        } else {
+            vec![(crate::space::u_kind_pairs(2, 1, false), k1.clone(), "Lambda<=1 incl. c"), (crate::space::u_kind_pairs(1, 2, false), k1.clone(), "Lambda<=1 incl. c"), (crate::space::u_runs(), k1.clone(), "Lambda<=1 incl. c")]
+        };
+        for (u, cfgs, desc) in plan {
+            par_for(u.len(), |i| {
+                let t = u.set(i);
+                for c in &cfgs {
+                    valid_check(ctx, &t, c);
+                }
+            });
+            ctx.run.space(json!({"universe": u.name, "sets": u.len(), "settings": desc, "settings_count": cfgs.len(), "cases": u.len() * cfgs.len()}));
+        }
+    }
     if thorough {
         let u = crate::space::Universe::new("U_ab3{a,b}", &["a", "b"], 3, 0, true);
         let k3 = lattice_le(0, ALL_BITS, 2);
